@@ -15,7 +15,7 @@ namespace lx
 {
 struct LV { uint64_t h = 0; };
 struct TermCall { int term; const char* data; size_t size; };
-struct RuleCall { int term; uint32_t line, col; uint64_t h; };
+struct RuleCall { int term; uint32_t line, col; uint64_t h; uint32_t sp_line = 0, sp_col = 0; };
 struct Log { std::vector<TermCall> terms; std::vector<RuleCall> rules; bool empty_lexeme = false; void clear() { terms.clear(); rules.clear(); empty_lexeme = false; } };
 inline thread_local Log* g_log = nullptr;
 struct empty_lexeme_error : std::runtime_error { empty_lexeme_error() : std::runtime_error("term functor received an empty lexeme") {} };
@@ -52,7 +52,7 @@ struct ListF
 {
     uint64_t operator()(uint64_t acc, const ctpg::term_value<LV>& tv) const
     {
-        if (g_log) g_log->rules.push_back(RuleCall{I, tv.get_line(), tv.get_column(), tv.get_value().h});
+        if (g_log) g_log->rules.push_back(RuleCall{I, tv.get_line(), tv.get_column(), tv.get_value().h, tv.get_sp().line, tv.get_sp().column});
         return eng::hcomb(eng::hcomb(acc, uint64_t(I)), tv.get_value().h);
     }
 };
@@ -488,7 +488,7 @@ static Verdict check_lexer(LProp prop, const LCase& c, Stats& st)
         if (prop == LC10 && tok_ok)
         {
             for (size_t i = 0; i < log.rules.size() && i < rl.toks.size(); ++i)
-                if (int(log.rules[i].line) != rl.toks[i].line || int(log.rules[i].col) != rl.toks[i].col)
+                if (int(log.rules[i].line) != rl.toks[i].line || int(log.rules[i].col) != rl.toks[i].col || int(log.rules[i].sp_line) != rl.toks[i].line || int(log.rules[i].sp_col) != rl.toks[i].col)
                 {
                     auto d = fd(); d.set("token", (unsigned long long)i); d.set("expected_line", rl.toks[i].line); d.set("expected_col", rl.toks[i].col); d.set("observed_line", (unsigned long long)log.rules[i].line); d.set("observed_col", (unsigned long long)log.rules[i].col);
                     return Verdict::fail("term value carries a wrong source point", d);
